@@ -37,7 +37,7 @@ def jsonable(x, depth=0):
 
 class Corr:
     """one modelled function tied to the implementation"""
-    def __init__(self, name, cases, impl, enc=None, oracle=None, tag=None, fn=None, near_tie=None):
+    def __init__(self, name, cases, impl, enc=None, oracle=None, tag=None, fn=None, near_tie=None, compare=None):
         self.name = name            # label (also registry name unless fn given)
         self.fn = fn or name        # registry entry in the extracted model
         self.cases = cases          # list of inputs
@@ -46,6 +46,7 @@ class Corr:
         self.oracle = oracle        # input -> None | str  (the PROPERTY on the implementation)
         self.tag = tag
         self.near_tie = near_tie    # (input, impl_ser, model_ser) -> bool : float tie, skip
+        self.compare = compare      # (input, impl_ser, model_ser) -> True equal / False differ / None near tie
 
 class Sweep:
     """implementation-side property oracle over many inputs: run() yields (case, failure|None)"""
@@ -132,7 +133,16 @@ def main():
             model_out = coqbuild.run_model(driver, enc_cases) if enc_cases else []
             nm = 0; nt = 0
             for x, io, mo in zip(c.cases, impl_out, model_out):
-                if io != mo:
+                if c.compare is not None:
+                    try:
+                        verdict = c.compare(x, io, mo)
+                    except Exception as e:
+                        verdict = False; notes.append("compare raised %r" % (e,))
+                    differ = verdict is False
+                    if verdict is None: nt += 1
+                else:
+                    differ = io != mo
+                if differ:
                     if c.near_tie is not None and c.near_tie(x, io, mo):
                         nt += 1; continue
                     nm += 1
